@@ -48,6 +48,7 @@
         proof { assert(p >> 30 == 0) by (bit_vector) requires p < 0x4000_0000; }
         assert!(p >> 30 == 0);
         if p == 2 {
+            proof { assert((1u64 << 63) == 0x8000_0000_0000_0000u64) by (bit_vector); }
             return Dividers {
                 p: 2,
                 m64: 1 << 63,
